@@ -28,6 +28,11 @@ pub trait Handler {
     fn probe(&self, _site: Site) {}
     /// Called when `subdivide` has left its loop, with the number of events still queued.
     fn after_sweep(&self, _remaining: usize) {}
+    /// When true, a bounding box is replaced by the whole plane as soon as it is accumulated, so that
+    /// nothing downstream can base a fast path on it.
+    fn widen_boxes_at_source(&self) -> bool {
+        false
+    }
     fn disable_shortcut(&self) -> bool {
         false
     }
@@ -79,6 +84,15 @@ fn whole_plane<F: Float>() -> BoundingBox<F> {
             x: F::infinity(),
             y: F::infinity(),
         },
+    }
+}
+
+/// Called by `fill_queue` each time it has extended a bounding box.
+pub fn box_accumulated<F: Float>(bbox: &mut BoundingBox<F>) {
+    if let Some(h) = current() {
+        if h.widen_boxes_at_source() {
+            *bbox = whole_plane();
+        }
     }
 }
 
